@@ -21,10 +21,27 @@ Definition s_License : str := of_ascii [76; 105; 99; 101; 110; 115; 101].
 (* Comment.val variants, only as far as the License test needs them *)
 Inductive comment_style := CPlain | COffset (n : nat) | CDtd.
 
+(* all.split("\n") and "\n".join(...) *)
+Fixpoint split_lf (s : str) : list str :=
+  match s with
+  | [] => [[]]
+  | c :: s' =>
+      match split_lf s' with
+      | l :: ls => if N.eqb c 10%N then [] :: l :: ls else (c :: l) :: ls
+      | [] => [[]]
+      end
+  end.
+Definition join_lf (ls : list str) : str :=
+  match ls with
+  | [] => []
+  | l :: rest => l ++ flat_map (fun x => 10%N :: x) rest
+  end.
+
+(* OffsetComment.val: "\n".join(line[offset:] for line in self.all.split("\n")) *)
 Definition comment_val (st : comment_style) (all : str) : str :=
   match st with
   | CPlain => all
-  | COffset n => concat (map (skipn n) (splitlines_keep all))
+  | COffset n => join_lf (map (skipn n) (split_lf all))
   | CDtd => slice all 4 (length all - 3)
   end.
 
